@@ -810,6 +810,8 @@ class Engine:
             if isinstance(val, list):
                 val = self.overlay_seq(st, val)
             if not isinstance(val, (tuple, list)):
+                if isinstance(val, (SInt, SBool)):
+                    return [(st, RAISE, TypeError('cannot unpack non-iterable int object'))]
                 if has_sym(val):
                     raise Unsupported('unpack symbolic')
                 try:
